@@ -224,6 +224,15 @@ func genC10(r *sim.Rng, tier string, idx int) *GCase {
 	v.DashDash = r.Chance(1, 5) || in[0] == '-'
 	// surroundings: an existing target, a stale temp file, an unrelated file
 	e := modelOperand(&v, stateOf(buildWorld(c)), in)
+	if e.Fail && r.Chance(1, 25) {
+		// an operand that cannot be processed, many times over: the run fails
+		// once per operand (only the fault-free run is judged)
+		n := sim.Pick(r, []int{255, 256, 257, 512})
+		for len(v.Files) < n {
+			v.Files = append(v.Files, in)
+		}
+		c.Enumerate = false
+	}
 	tgt := e.Target
 	if tgt == "" && !v.Stdout {
 		// the operand fails in the model; still place files where a target might go
